@@ -163,13 +163,19 @@ func (e *Engine) pos(i ssa.Instruction) string {
 // site names a location by function and expression text, not line number.
 func (e *Engine) site(i ssa.Instruction) string {
 	fn := i.Parent()
-	name := fn.Name()
-	if fn.Signature.Recv() != nil {
-		name = fn.RelString(fn.Pkg.Pkg)
-	} else if fn.Pkg != nil {
-		name = fn.Pkg.Pkg.Name() + "." + fn.Name()
+	for fn.Parent() != nil { // anonymous function: name the enclosing one
+		fn = fn.Parent()
 	}
-	return name
+	if fn.Origin() != nil {
+		fn = fn.Origin()
+	}
+	if fn.Pkg == nil {
+		return fn.Name()
+	}
+	if fn.Signature.Recv() != nil {
+		return fn.RelString(fn.Pkg.Pkg)
+	}
+	return fn.Pkg.Pkg.Name() + "." + fn.Name()
 }
 
 // ---- memory access ----
